@@ -434,10 +434,23 @@ def rule_loop(ctx):
     ok = len(ncb) == 1 and norm.text(ncb[0].args[-1]) == "handle_connect_error" and any(norm.text(c.func) == "notify_connect_error" for c in calls_in(ce.node))
     ctx.ob("connect_error -> notify_connect_error -> handle_connect_error", ok, "failure chain changed", ce.loc())
     lam = [c for c in calls_in(nce.node) if call_name(c) == "txaio.add_callbacks"]
-    ok = len(lam) == 1 and len(lam[0].args) == 3 and all(isinstance(a, ast.Lambda) and isinstance(a.body, ast.Call) and call_name(a.body) == "txaio.reject"
-                                                            and norm.text(a.body.args[0]) == "chain_f" for a in lam[0].args[1:])
     rets = [s for s in walk_no_defs(nce.node) if isinstance(s, ast.Return)]
-    ctx.ob("a failing or succeeding connectfailure listener both hand the original failure on", ok and len(rets) == 1 and norm.text(rets[0].value) == "chain_f",
+    chain = norm.text(rets[0].value) if len(rets) == 1 else None
+
+    def hands_on(a):
+        """the callback (a lambda, or a closure of notify_connect_error given by name) does nothing but reject the chained future with the failure"""
+        if isinstance(a, ast.Lambda):
+            calls_ = [a.body]
+        elif isinstance(a, ast.Name):
+            defs_ = [f_ for f_ in nce.nested_list() if f_.name == a.id]
+            stm = [x for x in defs_[-1].node.body if not (isinstance(x, ast.Expr) and isinstance(x.value, ast.Constant))] if defs_ else []
+            calls_ = [x.value for x in stm if isinstance(x, (ast.Expr, ast.Return)) and x.value is not None] if len(stm) == 1 else []
+        else:
+            calls_ = []
+        return len(calls_) == 1 and isinstance(calls_[0], ast.Call) and call_name(calls_[0]) == "txaio.reject" and len(calls_[0].args) == 2 \
+            and norm.text(calls_[0].args[0]) == chain and norm.text(calls_[0].args[1]) == nce.params()[0]
+    ok = len(lam) == 1 and len(lam[0].args) == 3 and chain is not None and all(hands_on(a) for a in lam[0].args[1:])
+    ctx.ob("a failing or succeeding connectfailure listener both hand the original failure on", ok,
            "listener outcome decides whether the reconnect logic runs", nce.loc())
     # handle_connect_error: every non-raising path re-enters transport_check
     gh = CFG(hce.node)
@@ -572,7 +585,7 @@ def rule_completion(ctx):
     n += _guarded_completions(ctx, ol, "done", "on_leave listener")
     n += _guarded_completions(ctx, od, "done", "on_disconnect listener")
     n += _guarded_completions(ctx, oe, "done", "_connect_once.on_error")
-    ctx.require(n >= 4, "completions of the per-connection future not found")
+    ctx.require(n >= 3, "completions of the per-connection future not found")
     # on_leave: normal reasons resolve, others reject
     from ..core.cfg import MustFacts
     g = CFG(ol.node)
@@ -589,15 +602,48 @@ def rule_completion(ctx):
                 else:
                     ok = any(not x[3] for x in inn)
                     ctx.ob("on_leave: any other leave reason fails the connection (reconnect logic decides)", ok, f"reject under {inn}", ol.loc(c))
-    # on_disconnect: unclean does not complete successfully
-    g = CFG(od.node)
-    mf = MustFacts(g, resolver=norm.Resolver(p, od.module, od.cls))
-    for nd in g.stmt_nodes():
-        for c in node_calls(nd):
-            if call_name(c) == "txaio.resolve" and norm.text(c.args[0]) == "done":
-                f = mf.at(nd) or ()
-                ctx.ob("on_disconnect: only a clean disconnect finishes the connection successfully", ("truth", "was_clean", None, True) in f,
-                       "an unclean disconnect completes the connection successfully: no reconnect", od.loc(c))
+    # the two listeners together, as histories of one connection (sa.core.tiny, shared state: the per-connection future).  "A failed or lost
+    # connection leads to a new attempt": only a session that LEFT the realm normally finishes the connection successfully -- a transport that
+    # goes away without that (even in an orderly way, even before the session ever joined) must leave the future to be failed, so that the
+    # reconnect logic runs
+    from ..core.tiny import Tiny, Sym
+    probs = []
+    try:
+        histories = [("the transport closes cleanly, the session never left (e.g. orderly EOF before WELCOME)", [("disconnect", True)], "not-success"),
+                     ("the transport is lost uncleanly, the session never left", [("disconnect", False)], "not-success"),
+                     ("normal leave, then clean disconnect", [("leave", "wamp.close.normal"), ("disconnect", True)], "success"),
+                     ("leave with goodbye_and_out, then clean disconnect", [("leave", "wamp.close.goodbye_and_out"), ("disconnect", True)], "success"),
+                     ("normal leave, then unclean disconnect", [("leave", "wamp.close.normal"), ("disconnect", False)], "success"),
+                     ("leave for another reason, then clean disconnect", [("leave", "wamp.error.no_such_realm"), ("disconnect", True)], "failure"),
+                     ("transport lost while joined (leave reason transport_lost), then disconnect", [("leave", "wamp.close.transport_lost"), ("disconnect", True)], "failure")]
+        for name, events, want in histories:
+            done = Sym("per-connection-future")
+            outcome = []
+
+            def oracle(f_, a_, k_=None):
+                if f_ == "txaio.is_called" and a_ and a_[0] is done:
+                    return bool(outcome)
+                if f_ in ("txaio.resolve", "txaio.reject") and a_ and a_[0] is done:
+                    outcome.append(f_.split(".")[1])
+                    return None
+                return Sym(f"<{f_}>")
+            for kind, arg in events:
+                fn_ = ol if kind == "leave" else od
+                prm = fn_.params()
+                env = {"self": Sym("component", log=Sym("log")), "self.log": Sym("log"), "done": done, prm[0]: Sym("session")}
+                env[prm[1]] = Sym("close-details", reason=arg, message="m") if kind == "leave" else arg
+                r = Tiny(env, default_call=oracle, opaque_globals=True, model_strings=True).run(
+                    [x for x in fn_.node.body if not (isinstance(x, ast.Expr) and isinstance(x.value, ast.Constant))])
+                if r[0] == "raise":
+                    outcome.append(f"raises {r[1]}")
+            got = "success" if outcome == ["resolve"] else ("failure" if outcome == ["reject"] else ("untouched" if not outcome else "+".join(outcome)))
+            ok = (want == "success" and got == "success") or (want == "failure" and got == "failure") or (want == "not-success" and got in ("untouched", "failure"))
+            if not ok:
+                probs.append(f"{name}: the connection's future ends {got}, expected {want.replace('not-success', 'untouched or failed (so that the next attempt is made)')}")
+    except AnalysisError as e:
+        raise AnalysisError(f"[C14.5-completion-guards] on_leave / on_disconnect outside the modelled subset: {e}")
+    ctx.ob(f"a connection finishes successfully only through a normal leave of its session, never merely because the transport went away [{len(histories)} histories]",
+           not probs, "; ".join(probs[:2]), od.loc())
     # main wiring
     reg = [(nd, c) for nd in CFG(cs.node).stmt_nodes() for c in node_calls(nd) if isinstance(c.func, ast.Attribute) and c.func.attr == "on"
            and norm.text(c.func.value) == "session" and c.args and isinstance(c.args[0], ast.Constant)]
